@@ -1521,4 +1521,68 @@ theorem cscToCsc_correct (s : CSC) (ity : IdxTy) (req : Request) {cv : Conv β}
       simp [this]
 
 
+/-! ### Helpers: reading a denotation / a successful conversion back -/
+
+theorem denote_csc {z : β} {s : CSC} {v : List β} {M : Mat β} (h : denote z (.csc s) v = some M) :
+    ∃ es, cscEntriesSpec s = some es ∧ ValidEntries s.rows s.cols s.sym es ∧
+      M = lookupMat z s.rows s.cols s.sym es v := by
+  simp only [denote] at h
+  cases hes : cscEntriesSpec s with
+  | none => rw [hes] at h; cases h
+  | some es =>
+    rw [hes] at h
+    exact ⟨es, rfl, (sparseMat_eq_some.mp h).1, (sparseMat_eq_some.mp h).2⟩
+
+theorem denote_coo {z : β} {s : COO} {v : List β} {M : Mat β} (h : denote z (.coo s) v = some M) :
+    ∃ es, cooEntriesSpec s = some es ∧ ValidEntries s.rows s.cols s.sym es ∧
+      M = lookupMat z s.rows s.cols s.sym es v := by
+  simp only [denote] at h
+  cases hes : cooEntriesSpec s with
+  | none => rw [hes] at h; cases h
+  | some es =>
+    rw [hes] at h
+    exact ⟨es, rfl, (sparseMat_eq_some.mp h).1, (sparseMat_eq_some.mp h).2⟩
+
+theorem dense_accepts {z : β} {d : Dense} {t : Target} {req : Request} {cv : Conv β}
+    (ht : t ≠ .dense) (hc : convert z (.dense d) t req = .ok cv) :
+    d.sym ≠ .lower ∧ (d.sym ≠ .unsym → d.rows = d.cols) := by
+  by_contra hcon
+  have hbad : d.sym = .lower ∨ (d.sym = .upper ∧ d.rows ≠ d.cols) := by
+    by_cases hl : d.sym = .lower
+    · exact Or.inl hl
+    · right
+      have : ¬ (d.sym ≠ .unsym → d.rows = d.cols) := fun h => hcon ⟨hl, h⟩
+      have hne : d.sym ≠ .unsym ∧ d.rows ≠ d.cols := by
+        constructor
+        · intro hu; exact this (fun h => absurd hu h)
+        · intro he; exact this (fun _ => he)
+      refine ⟨?_, hne.2⟩
+      cases hs : d.sym
+      · exact absurd hs hne.1
+      · rfl
+      · exact absurd hs hl
+  obtain ⟨h1, h2⟩ := denseRejects_true d hbad
+  cases t with
+  | dense => exact ht rfl
+  | csc ity => simp [convert, denseToCsc, h2] at hc
+  | coo ity => simp [convert, denseToCoo, h1] at hc
+
+theorem cooToCsc_never_ok {s : COO} {ity : IdxTy} {req : Request} {cv : Conv β} :
+    cooToCsc s ity req ≠ .ok cv := by
+  unfold cooToCsc; split <;> intro h <;> cases h
+
+theorem cscToCoo_flags {s : CSC} {ity : IdxTy} {req : Request} {cv : Conv β}
+    (h : cscToCoo s ity req = .ok cv) :
+    ∃ s' : COO, cv.out = .coo s' ∧ s'.rows = s.rows ∧ s'.cols = s.cols ∧ s'.sym = s.sym ∧
+      s'.ity = ity ∧ s'.firstIndex = req.firstIndex.getD 0 := by
+  unfold cscToCoo at h
+  split at h
+  · cases h
+  · split at h
+    · cases h
+    · cases h
+      refine ⟨_, rfl, rfl, rfl, rfl, rfl, ?_⟩
+      cases hr : req.firstIndex <;> simp [Gen.C14.cscCooFirstIndex]
+
+
 end Alpaqa.C14
